@@ -173,7 +173,17 @@ func init() {
 	})
 }
 
+// runC04: most cases run alone; some run as concurrent sessions of the same
+// case shape in one process (package-level state in the code under test).
 func runC04(cs *vrt.Case) {
+	if cs.Idx%12 == 7 || cs.Idx%12 == 4 {
+		cs.Twins(2, func(sub *vrt.Case, _ *vrt.Rng) { runC04One(sub) })
+		return
+	}
+	runC04One(cs)
+}
+
+func runC04One(cs *vrt.Case) {
 	r := cs.Rng
 	switch cs.Idx % 6 {
 	case 0, 1, 2:
